@@ -253,7 +253,7 @@ pub fn sim_engine(prop: &str) -> Option<SimEngine> {
         },
         "C05" => SimEngine {
             prop: "C05",
-            profile: "placement",
+            profile: "placement2",
             quick: 1500,
             max_len: 90,
             eager_ratio: 90,
@@ -262,7 +262,7 @@ pub fn sim_engine(prop: &str) -> Option<SimEngine> {
         },
         "C06" => SimEngine {
             prop: "C06",
-            profile: "steal",
+            profile: "steal2",
             quick: 1000,
             max_len: 100,
             eager_ratio: 90,
